@@ -141,7 +141,11 @@ def d2_driver_to_raw(n, seed, policy, delivery, fails, d):
             v = X.view_of_xml(e)
             ch = {dict(c[1])["name"]: c for c in v[3]}
             ca = dict(ch["A"][1])
-            raw = base64.b64decode(ch["A"][2] or "")
+            try:
+                raw = base64.b64decode(ch["A"][2] or "", validate=True)  # standard alphabet, as INDI specifies
+            except Exception as e:
+                fails.append(("payload-not-base64", dd, "n=%d: wire payload is not standard base64: %r" % (n, e)))
+                continue
             if raw != b.binary or ca.get("format") != b.format or ca.get("size") != str(len(b.binary)):
                 fails.append(("payload-differs", dd, "n=%d: wire carries %d bytes format %r size %r" % (n, len(raw), ca.get("format"), ca.get("size"))))
     finally:
@@ -265,8 +269,13 @@ def run_shard(shard):
         pass
 
     def absorb(fails, rep):
+        from mc.core import e2e
+
+        if e2e.World.hang_count > hangs[0]:
+            hangs[0] = e2e.World.hang_count
+            fails = list(fails) + [("hang", "buffer-process-cpu-limit", "Buffer.process was stopped by the CPU watchdog (%d times in this shard) - %r" % (hangs[0], rep))]
         for clause, disc, whatmsg in fails:
-            if "Hang" in whatmsg or "did not return" in whatmsg or "no quiescence" in whatmsg:
+            if "no quiescence" in whatmsg:
                 hangs[0] += 1
             key = (clause, disc)
             if key in sig:
